@@ -95,7 +95,7 @@ func (s *Sim) deliverCol(dst int, c string, tag string) bool {
 		s.shape["col_multi_head_on_merge"] = true
 	}
 	core.CopyClosure(s.ctx, s.reps[src].n, rep.n, core.ParseCid(c))
-	err := rep.n.Merge(s.ctx, "", core.ParseCid(c), s.colID)
+	err := s.merge(rep, "", c)
 	s.rec.Count("col_deliveries", 1)
 	s.logf("%sdeliver-col %s(h%d) r%d->r%d col_heads_before=%d err=%v", tag, c[len(c)-5:], cc.Height, src, dst, len(heads), err)
 	if err != nil {
